@@ -39,6 +39,9 @@ var c13Stubs = map[string]engine.Intrinsic{
 
 func init() {
 	Register("C13", checkC13)
+	// util.RuneToString formats a symbolic rune with fmt: inside the engine it is replaced by a
+	// harness function of the code point alone (verifRuneKey); natively the real one runs
+	c13Stubs[RepoMod+"/internal/util.RuneToString"] = redirectTo(RepoMod+"/internal/frontend/scanner", "verifRuneKey")
 }
 
 func checkC13(c *Ctx) {
